@@ -10,29 +10,40 @@
    No proofs in this file.
 
    input  = (tree cells dev onpanic onfatal child (call ...) [(stack ...)])     tree/cells as in C05/Model.v (all leaves are IO cores)
+             the tree may contain samplers that really drop: (8 t first thereafter) = NewSamplerWithOptions(t, 1h, first,
+             thereafter, hook).  All calls of a case run on ONE logger within one sampler tick: a sampler counts the
+             entries it is asked about per level and message bucket (sampler.go: counts.get(level, message) = fnv32a of
+             the message mod 4096, shipped with every call) and drops the n-th one when n > first and (thereafter = 0 or
+             (n - first) mod thereafter <> 0) (C05/Sampling.v: check_s, ctr_dec below)
      hook cfg = (0) nil | (1) WriteThenNoop | (2) WriteThenGoexit | (3) WriteThenPanic | (4) WriteThenFatal | (5 k) custom hook k
-     call  = (recv kind suffix level #msg (argshape via #text) [(len ...)])
+     call  = (recv kind suffix level #msg (argshape via #text) (len ...) bucket)
              msg = the message the call's arguments amount to (what fmt / bytes.TrimSpace make of them: an oracle
              the harness ships; may be empty); the last element says how the harness built the arguments (replay only)
              len ... = the length of each Write the call hands to an IO core's sink, in order (what the encoder
              produced: an oracle the harness ships; the theorems hold for all lengths)
+             bucket = the sampler counter the message falls into (hash/fnv New32a mod 4096: an oracle the harness ships)
      stack = what sits between the k-th IO leaf (order of leaf_ids) and its recording sinks - whose Write only stages
              the bytes and whose Sync commits them -, a tree of WriteSyncer combinators:
              (0) the recording sink | (1 size stopped inner) BufferedWriteSyncer{Size: size} (stopped: Stop has run)
              | (2 inner) zapcore.Lock | (3 inner) zapcore.AddSync of a writer that has a Sync method
              | (4 (inner ...)) zapcore.NewMultiWriteSyncer
      special input (table): the observation must be the method table
-   observation = ((o ...) (flushed ...)):  o = ((ev ...) term pend), ev = (0 id) Write | (1 id) Sync | (2 h) hook,
+   observation = ((o ...) (flushed ...)):  o = ((ev ...) term pend ((k d) ...)), ev = (0 id) Write | (1 id) Sync | (2 h) hook,
      term = () | (0 #value) panic with that value | (1) exit status 1 | (2) Goexit | (3 k) custom hook k ran;
      pend = for every leaf that has a stack, for every recording sink below it: the number of bytes the IO core has
             written so far that the sink has NOT committed at the moment control is lost / the call returns
             (in-process: in the terminal hook, in recover, in the deferred function; child processes: what is
             missing from the sink's file after the process is gone);
+     (k d) = the decision sampler number k (pre-order position among the samplers of the tree) reported through its
+            SamplerHook during the call, d = 1 dropped / 0 sampled (as in C05/Model.v).  The oracle takes the samplers'
+            decisions from the observation (WHICH entries a sampler drops is C11's) and demands the delivery to every
+            accepting core that is not beneath a sampler that reported a drop; the model predicts the decisions with
+            sampler.go's counters;
      flushed (child-process cases only) = lines found in the file behind each leaf's buffered sink *)
 From Coq Require Import List ZArith Bool Lia Arith.
 From Coq.Strings Require Import Byte.
 Import ListNotations.
-From Zap Require Import Base.Wire C05.Cores C05.Model.
+From Zap Require Import Base.Wire C05.Cores C05.Sampling C05.Model.
 Open Scope Z_scope.
 
 (* ---------------- front-end methods ---------------- *)
@@ -122,6 +133,11 @@ Definition finish (lg : logger) (io : nat -> bool) (l : level) (e : ce) : list e
 (* one call through method family f *)
 Definition log_call (w : world) (lg : logger) (io : nat -> bool) (f : fam) (l : level) : list ev * option action :=
   if reaches_check w (lcore lg) f l then finish lg io l (logger_check w (lcore lg) l) else ([], None).
+(* the same with samplers that really drop (C05/Sampling.v): [dec k] says whether sampler number k's counter
+   answers "drop" for this entry.  sampler.Check then returns the CheckedEntry it was handed - with every core
+   that registered on it before (an earlier branch of a tee) - and Logger.check goes on as for any other answer *)
+Definition log_call_s (dec : decisions) (w : world) (lg : logger) (io : nat -> bool) (f : fam) (l : level) : list ev * option action :=
+  if reaches_check w (lcore lg) f l then finish lg io l (logger_check_s dec w (lcore lg) l) else ([], None).
 (* The message.  No front end looks at its arguments or at the message they amount to before
    Logger.check: sugar.go formats them (getMessage / getMessageln), zapgrpc formats them (sprintln),
    the std-log bridge trims what the log package hands it (loggerWriter.Write: bytes.TrimSpace, then
@@ -135,6 +151,9 @@ Definition panic_value (a : option action) (msg : bytes) : option bytes :=
 Definition front_call (w : world) (lg : logger) (io : nat -> bool) (m : method) (l : level) (msg : bytes)
   : list ev * option action * option bytes :=
   let r := log_call w lg io (fam_of m) l in (fst r, snd r, panic_value (snd r) msg).
+Definition front_call_s (dec : decisions) (w : world) (lg : logger) (io : nat -> bool) (m : method) (l : level) (msg : bytes)
+  : list ev * option action * option bytes :=
+  let r := log_call_s dec w lg io (fam_of m) l in (fst r, snd r, panic_value (snd r) msg).
 (* the same with the guards of the code before the zapgrpc fix *)
 Definition log_call_orig (w : world) (lg : logger) (io : nat -> bool) (f : fam) (l : level) : list ev * option action :=
   if forallb (guard_pass w (lcore lg) l) (guards_of_orig f) then finish lg io l (logger_check w (lcore lg) l) else ([], None).
@@ -242,6 +261,31 @@ Fixpoint run_evs (lens : list Z) (st : sinks) (evs : list ev) : sinks :=
   | EHook _ :: r => run_evs lens st r
   end.
 
+(* ---------------- the sampler's counters ---------------- *)
+(* sampler.go: counters.get(lvl, key) = counts[lvl - _minLevel][fnv32a(key) % _countersPerLevel], 4096 counters per
+   level: two messages share a counter exactly when they fall into the same bucket.  The bucket of a call's message
+   is an input of the model (field 7 of the call): the harness computes it with hash/fnv (New32a - sampler.go's
+   fnv32a is "adapted from hash/fnv"), the standard library as oracle, as it does for the message itself *)
+(* the counters of all samplers of one logger within one tick (one goroutine): (sampler, level, bucket, n) *)
+Definition ctrs := list (nat * Z * Z * Z).
+Definition ctr_same (k : nat) (l b : Z) (x : nat * Z * Z * Z) : bool :=
+  let '(k', l', b', _) := x in Nat.eqb k k' && (l =? l') && (b =? b').
+Fixpoint ctr_get (c : ctrs) (k : nat) (l b : Z) : Z :=
+  match c with
+  | [] => 0
+  | x :: r => if ctr_same k l b x then snd x else ctr_get r k l b
+  end.
+(* counter.IncCheckReset within the tick: n = the number of entries of this level and bucket the sampler has
+   been asked about, this one included;  n > s.first && (s.thereafter == 0 || (n-s.first)%s.thereafter != 0) *)
+Definition ctr_dec (c : ctrs) (ps : list (Z * Z)) (l b : Z) : decisions :=
+  fun k => let '(fi, th) := nth k ps (1073741824, 0) in drop_at (ctr_get c k l b + 1) fi th.
+Fixpoint ctr_inc (c : ctrs) (k : nat) (l b : Z) : ctrs :=
+  match c with
+  | [] => [(k, l, b, 1)]
+  | x :: r => if ctr_same k l b x then (fst x, snd x + 1) :: r else x :: ctr_inc r k l b
+  end.
+Definition ctr_bump (c : ctrs) (ks : list nat) (l b : Z) : ctrs := fold_left (fun c k => ctr_inc c k l b) ks c.
+
 (* ---------------- wire ---------------- *)
 Definition dec_recv (z : Z) : recv := match z with 0 => RLogger | 1 => RSugar | 2 => RGrpc | 3 => RZapio | _ => RStdLog end.
 Definition dec_kind (z : Z) : kind :=
@@ -268,10 +312,11 @@ Definition enc_term (a : option action) (pv : option bytes) : sx :=
   | Some AExit => SL [SZ 1] | Some AGoexit => SL [SZ 2] | Some (ACustom k) => SL [SZ 3; of_nat k]
   end.
 
-Record call := { c_method : method; c_level : level; c_msg : bytes; c_lens : list Z }.
+Record call := { c_method : method; c_level : level; c_msg : bytes; c_lens : list Z; c_bucket : Z }.
 Definition dec_call (s : sx) : call :=
   {| c_method := {| m_recv := dec_recv (sx_z (sx_nth s 0)); m_kind := dec_kind (sx_z (sx_nth s 1)); m_suffix := dec_suffix (sx_z (sx_nth s 2)) |};
-     c_level := sx_z (sx_nth s 3); c_msg := sx_b (sx_nth s 4); c_lens := map sx_z (sx_l (sx_nth s 6)) |}.
+     c_level := sx_z (sx_nth s 3); c_msg := sx_b (sx_nth s 4); c_lens := map sx_z (sx_l (sx_nth s 6));
+     c_bucket := sx_z (sx_nth s 7) |}.
 
 (* a stack as the harness built it: nothing buffered, nothing staged, nothing committed *)
 Fixpoint dec_ws (s : sx) {struct s} : ws :=
@@ -304,30 +349,41 @@ Definition sk_init (ids : list nat) (stks : list ws) : sinks :=
 Definition enc_pend (ids : list nat) (st : sinks) : sx :=
   SL (map (fun id => SL (map SZ (sk_pending 0 (st id)))) ids).
 
-(* one call: the events, the terminal action, and what every sink below every leaf has not committed
-   when the call ends (= when control is lost, if it is); the state of the stacks goes on to the next call *)
-Definition model_call (w : world) (lg : logger) (ids : list nat) (st : sinks) (cl : call) : sx * sinks :=
-  let '(evs, a, pv) := front_call w lg all_io (c_method cl) (c_level cl) (c_msg cl) in
-  let st' := run_evs (c_lens cl) st evs in
-  (SL [SL (map enc_ev evs); enc_term a pv; enc_pend ids st'], st').
-Fixpoint model_calls (w : world) (lg : logger) (ids : list nat) (st : sinks) (cls : list call) : list sx :=
+(* one call, given the samplers' decisions for it: the events, the terminal action, what every sink below every
+   leaf has not committed when the call ends (= when control is lost, if it is), and the decisions of the
+   samplers the call reached; the state of the stacks goes on to the next call *)
+Definition model_call (dec : decisions) (w : world) (lg : logger) (ids : list nat) (st : sinks) (cl : call) : sx * sinks :=
+  let r := front_call_s dec w lg all_io (c_method cl) (c_level cl) (c_msg cl) in
+  let st' := run_evs (c_lens cl) st (fst (fst r)) in
+  (SL [SL (map enc_ev (fst (fst r))); enc_term (snd (fst r)) (snd r); enc_pend ids st';
+       SL (map (enc_report dec) (call_consulted dec w (lcore lg) (fam_of (c_method cl)) (c_level cl)))], st').
+(* the calls of a case, one after the other on the same logger: the decisions of the call at hand come from the
+   counters (ps = (first, thereafter) of every sampler); afterwards every sampler the call reached has counted
+   the entry *)
+Fixpoint model_calls (ps : list (Z * Z)) (ctr : ctrs) (w : world) (lg : logger) (ids : list nat) (st : sinks)
+    (cls : list call) : list sx :=
   match cls with
   | [] => []
-  | cl :: r => let '(o, st') := model_call w lg ids st cl in o :: model_calls w lg ids st' r
+  | cl :: r => let b := c_bucket cl in
+               let dec := ctr_dec ctr ps (c_level cl) b in
+               let o := model_call dec w lg ids st cl in
+               fst o :: model_calls ps (ctr_bump ctr (call_consulted dec w (lcore lg) (fam_of (c_method cl)) (c_level cl)) (c_level cl) b)
+                                    w lg ids (snd o) r
   end.
 
 Definition model (i : sx) : sx :=
   if is_table i then SL (map enc_method methods) else
   let w0 := world_of (sx_nth i 1) in
   let lg := dec_logger increase_ok w0 i in
+  let ps := sparams (sx_nth i 0) in
   let calls := map dec_call (sx_l (sx_nth i 6)) in
   let child := sx_bool (sx_nth i 5) in
   let stks := dec_stacks i in
   let ids := sk_ids (lcore lg) stks in
-  SL [SL (model_calls w0 lg ids (sk_init ids stks) calls);
+  SL [SL (model_calls ps [] w0 lg ids (sk_init ids stks) calls);
       SL (match calls with
           | [cl] => if child then
-                      map (fun id => of_nat (flushed_lines id (fst (log_call w0 lg all_io (fam_of (c_method cl)) (c_level cl))) 0 0))
+                      map (fun id => of_nat (flushed_lines id (fst (log_call_s (ctr_dec [] ps (c_level cl) (c_bucket cl)) w0 lg all_io (fam_of (c_method cl)) (c_level cl))) 0 0))
                           (leaf_ids (lcore lg))
                     else []
           | _ => []
@@ -370,22 +426,27 @@ Definition spec_term (lg : logger) (l : level) (msg : bytes) : sx :=
    is lost, if the call is terminal - every recording sink below every leaf the entry was delivered to,
    whatever WriteSyncer combinators sit in between, has committed everything the IO core has written *)
 Definition is_zero (s : sx) : bool := match s with SZ 0 => true | _ => false end.
-Definition spec_pend (w : world) (lg : logger) (ids : list nat) (stks : list ws) (l : level) (o : sx) : bool :=
+Definition spec_pend (dec : decisions) (w : world) (lg : logger) (ids : list nat) (stks : list ws) (l : level) (o : sx) : bool :=
   Nat.eqb (length (sx_l o)) (length ids) &&
   forallb (fun x : nat * sx =>
              let '(id, p) := x in
              Nat.eqb (length (sx_l p)) (sk_nsinks (sk_init ids stks id)) &&
-             (if (ErrorL <? l) && existsb (Nat.eqb id) (delivered w (lcore lg) l) then forallb is_zero (sx_l p) else true))
+             (if (ErrorL <? l) && existsb (Nat.eqb id) (delivered_s dec w (lcore lg) 0 l) then forallb is_zero (sx_l p) else true))
           (combine ids (sx_l o)).
 
+(* "handed to every accepting core ... even when the entry is sampled out": the samplers that reported a drop
+   during the call excuse the leaves beneath themselves and no other (delivered_s: every root-to-leaf path all of
+   whose level filters enable the level and none of whose samplers dropped) - a core next to, before or after a
+   sampler that drops, a disabled filter or a declining wrapper still gets the entry *)
 Definition spec_call (w : world) (lg : logger) (ids : list nat) (stks : list ws) (cl : call) (o : sx) : bool :=
   let evs := map dec_ev (sx_l (sx_nth o 0)) in
   let l := c_level cl in
-  nat_list_eqb (writes_of evs) (delivered w (lcore lg) l) &&       (* handed to every accepting core, in order *)
-  nat_list_eqb (ev_hooks_of evs) (hooks_due w (lcore lg) l) &&
+  let dec := reported_drop (sx_l (sx_nth o 3)) in
+  nat_list_eqb (writes_of evs) (delivered_s dec w (lcore lg) 0 l) && (* handed to every accepting core, in order *)
+  nat_list_eqb (ev_hooks_of evs) (hooks_due_s dec w (lcore lg) 0 l) &&
   sync_ok (ErrorL <? l) evs &&                                     (* IO cores synced before control is lost *)
   sx_eqb (sx_nth o 1) (spec_term lg l (c_msg cl)) &&               (* and then the terminal action, or none *)
-  spec_pend w lg ids stks l (sx_nth o 2).                          (* with nothing left in a buffer *)
+  spec_pend dec w lg ids stks l (sx_nth o 2).                      (* with nothing left in a buffer *)
 Fixpoint spec_calls (w : world) (lg : logger) (ids : list nat) (stks : list ws) (cls : list call) (os : list sx) : bool :=
   match cls, os with
   | [], [] => true
@@ -406,8 +467,9 @@ Definition spec (i o : sx) : bool :=
      sink holds one line per delivery of an entry above error level *)
   (match calls with
    | [cl] => if child then
+               let dec := reported_drop (sx_l (sx_nth (sx_nth (sx_nth o 0) 0) 3)) in
                nat_list_eqb (map sx_n (sx_l (sx_nth o 1)))
-                 (map (fun id => if ErrorL <? c_level cl then count_writes id (delivered w0 (lcore lg) (c_level cl)) else 0%nat)
+                 (map (fun id => if ErrorL <? c_level cl then count_writes id (delivered_s dec w0 (lcore lg) 0 (c_level cl)) else 0%nat)
                       (leaf_ids (lcore lg)))
              else true
    | _ => true
